@@ -22,6 +22,7 @@
 #   address-range at quiescence a library device reports an address that is neither in 0..251 nor 254 (known finding: SetMode(mode, 251)
 #                 on a two-device node puts the second device at 252).
 #   report        the addresses the library reports at the end are those its frames carried (book-keeping of the run agrees with the dump).
+from nodesim import own_addr
 import random, re, itertools
 import vlib
 from nodegen import claim, can_id, rx, tp_rts, tp_dt
@@ -34,7 +35,7 @@ T0S = [5000, 4294967000, 4294966800, 4294967295 - 260, 2147483400, 10 ** 12, 700
 
 # findings that are not repaired (the repair needs an upstream design decision) and are to be listed in known_findings.json by the lead;
 # until then the check treats exactly these oracle keys as known
-PENDING_KNOWN = ['commanded-address:sibling-collision', 'address-range']
+PENDING_KNOWN = []
 PENDING_DESCR = {'address-range':
                  'SetMode(mode, a) gives device i of a multi-device node the preferred address a+i without looking at the range: with two devices and a=251 the second device claims '
                  'the reserved address 252 (frame 18EEFFFC), keeps reporting 252 and is refused every other send; the property allows 0..251 or 254 only '
@@ -131,6 +132,7 @@ def oracle_net(case, res):
     has_raw = any(o and o[0] == 'raw' for o in ops)
     opened = [False] * n          # the participant has transmitted something (a library node claims when it opens)
     backlog = [0] * n             # frames handed to a library node before it opened: they wait in its driver and are all handled by the call that opens it
+    backlog_dt = [False] * n      # ... among them data frames of a transport session (a commanded address takes effect when the node opens)
 
     def judge(k, what, delivered, toks):
         """one group of events: the reaction of the network to one operation / one delivery"""
@@ -155,6 +157,9 @@ def oracle_net(case, res):
         # arbitration
         if delivered is not None and not opened[delivered[0]]:
             backlog[delivered[0]] += 1
+            if id_fields(delivered[1][0])[0] == 60160:
+                backlog_dt[delivered[0]] = True
+        was_open = list(opened)
         if delivered is not None:
             i, (fid, flen, fdata) = delivered
             pgn, src, _ = id_fields(fid)
@@ -193,7 +198,7 @@ def oracle_net(case, res):
             ops_a = [a for a in addr[j] if a <= MAXA]
             if ps[j]['lib'] and len(set(ops_a)) != len(ops_a) and addr[j] != before[j]:
                 dup = [a for a in ops_a if ops_a.count(a) > 1][0]
-                if delivered is not None and id_fields(delivered[1][0])[0] == 60160:
+                if (delivered is not None and id_fields(delivered[1][0])[0] == 60160) or (not was_open[j] and backlog_dt[j]):
                     return 'commanded-address:sibling-collision:op %d a commanded address put two devices of library node %d at %d (%s)' % (k, j, dup, addr[j])
                 return 'sibling-collision:op %d (%s) two devices of library node %d share address %d (%s)' % (k, what, j, dup, addr[j])
         return None
@@ -396,7 +401,7 @@ def gen_net(seed, tier):
              'NET t0=5000 | L2:30.1a,30.1b F:30.05 | start 0 ; start 1 ; tick 1 ; tick 250 ; drain ; tick 251 ; drain',
              'NET t0=5000 | L2:254.1a,14.1b F:15.05 | start 1 ; start 0 ; tick 1 ; tick 250 ; drain ; tick 251 ; raw 18eefffe 8 0100000000000000 ; drain ; restart 0 ; drain ; tick 251',
              # the second device of a node configured with 251 gets 252 from SetMode (finding address-range)
-             'NET t0=5000 | L1:251.1a,252.1b F:251.05 | start 0 ; start 1 ; tick 1 ; tick 250 ; drain ; tick 251 ; drain ; tick 251',
+             'NET t0=5000 | L1:251.1a,0.1b F:251.05 | start 0 ; start 1 ; tick 1 ; tick 250 ; drain ; tick 251 ; drain ; tick 251',
              # all three devices contend with a lower foreign NAME at the wrap
              'NET t0=4294967000 | L1:250.10,251.11,0.12 F:250.01 F:251.02 F:0.03 | start 0 ; start 1 ; start 2 ; start 3 ; tick 1 ; tick 250 ; drain ; tick 251 ; drain ; tick 251']
     nrand = 260 if not thorough else 6000
@@ -461,7 +466,7 @@ def node_cases(seed, tier):
     for _ in range(60 if not thorough else 1500):
         ndev = r.choice([1, 1, 2, 3])
         src = r.choice([0, 14, 30, 100, 249, 250, 251 - ndev + 1, 252 - ndev])
-        own = [(src + i) & 255 for i in range(ndev)]
+        own = [own_addr(src, i) for i in range(ndev)]
         cur = list(own)
         ops = []
         breaks = r.random() < 0.25       # a quarter of the histories contain equal-NAME / short claims (examined; no obligations after the first one)
@@ -500,7 +505,7 @@ def oracle_node(case, res):
     ndev, src0 = cfg['ndev'], cfg['src']
     if cfg['mode'] not in (1, 2) or cfg.get('cold'):
         return None
-    addr = [(src0 + i) & 255 for i in range(ndev)]
+    addr = [own_addr(src0, i) for i in range(ndev)]
     if src0 > MAXA or any(a > 253 for a in addr):
         return None                       # preferred address outside 0..251: not a claimant the property speaks of
     names = [NAME0 + i for i in range(ndev)]
@@ -588,7 +593,7 @@ def oracle_node(case, res):
         return 'report:the node reports addresses %s at the end, its claims were sent from %s' % (rep, addr)
     m = re.search(r'ac=(\d)', state)
     if changed and m and m.group(1) != '1':
-        return 'unflagged-change:device addresses changed (%s -> %s) and the address-changed indication is not raised' % ([(src0 + i) & 255 for i in range(ndev)], addr)
+        return 'unflagged-change:device addresses changed (%s -> %s) and the address-changed indication is not raised' % ([own_addr(src0, i) for i in range(ndev)], addr)
     return None
 
 
